@@ -30,6 +30,26 @@ CLAIMS = {
         text="Static induction step: every law returns 0 A / 0 W / (0 V, OFF) on dead rows and exactly the sleep current/power on phase-inactive rows, OFF is only ever reported with literal 0 V, and the solver carries and initialises the off-state per node from its own parents. Together with the C01 wiring rules this gives isolation of the whole subtree.",
         note=TB + "Not decided: that the off state has finished propagating when the tolerance test stops the sweep (C03).",
         ref="DESIGN.md section 4 C04"),
+    "C05": dict(
+        technique="idiom matcher for the first-match scan (condition compared as a truth table); order-provenance and who-may-consume rules on the input-order registry; reference comparison of the mux laws, child-current sum and mux row of solve(); object-state rule on the phase loop",
+        text="Static decision of all structural clauses: the selection is the ascending first-match scan over (not off and |v|!=0), the declared input order is stored, preserved and read back position by position and the unordered graph view is consumed nowhere else, current goes to the selected input only, one index is used for voltage / per-input resistance / lookup, the mux row reports the selected input as Parent / Rail in / Vin, _find_domain follows the first input with voltage to its root, and the no-live-input rows are dead rows.",
+        note=TB + "Not decided: numeric values (C01/C03). The agreement between the solver's selection (off-state and voltage) and _find_domain's (voltage only) relies on C04-R2 (OFF implies 0 V).",
+        ref="DESIGN.md section 4 C05"),
+    "C07": dict(
+        technique="loop-carried dependence (reaching definitions over the row loop's back edge); canonical pandas-selection records compared with an expected table; term identity for the energy formula with the sum loop read as a reduction idiom",
+        text="Static decision of attribution (a function of the tree only: nothing is carried from the previously emitted row, the inherited domain is the one recorded for the row's own parent), of the subsystem and total records (which rows are selected, which column, which reducer, which efficiency operands), of the 24 h energy formula as an algebraic identity, and of the duration-weighted average row.",
+        note=TB + "pandas evaluates boolean selections, .sum(), .values[0] as modelled (trusted contract). Row order is not decided. The identity 'per-phase energies add up to the energy of the average' is derived from the decided records (linear), not separately checked.",
+        ref="DESIGN.md section 4 C07"),
+    "C08": dict(
+        technique="canonical pandas-selection records of rail_rep() (filter, column, reducer per cell) compared with the expected table; argument-forwarding, totality (all paths return) and emptiness-guard rules; reference comparison of the Rail in label in solve()",
+        text="Static decision of every cell of the rail report (which rows, which column, sum or first), of the warnings union, of the skip of empty (rail, phase) cells, of totality of the function, of the forwarding of all analysis options to solve(), and of the labelling of rows with the rail that actually feeds them.",
+        note=TB + "pandas semantics are a trusted contract. Voltage is decided as 'first Vin of the rows fed by the rail', which equals the owner's Vout by C01-R6.",
+        ref="DESIGN.md section 4 C08"),
+    "C09": dict(
+        technique="guarded summary of the comparison loop body (truth table over comparison atoms, both key modes); dictionary of compared quantities as terms; docstring/table agreement for applicability and defaults; effect-order check of the per-domain flag on row paths",
+        text="Static decision of the comparison semantics (strict, by magnitude, tp signed, per-key default), the compared quantities, per-kind applicability against the class documentation, the default table against the module documentation, the phase-silence condition, the subsystem/total roll-up, and the operands handed over by solve().",
+        note=TB + "Not decided: the numeric values compared (C01-C03). The docstrings are the oracle for applicability; a documentation-only edit would be reported as a disagreement between code and documentation, which is what it is.",
+        ref="DESIGN.md section 4 C09"),
     "C06": dict(
         technique="guard-row comparison of law summaries over the phase atoms (has-table / phase-listed); call-argument provenance; loop-carried dependence (reaching definitions over the phase loop's back edge)",
         text="Static decision of the mapping phase -> behaviour for every kind, of the plumbing of the phase and per-node phase table from solve() to every law, of phase independence (no state carried between phase iterations except append-only accumulators), and of the phase-list / unknown-phase prologue.",
